@@ -240,6 +240,61 @@ func (e *Exec) callFunc(st *State, f *ssa.Function, bindings, args []Value, pos 
 	return e.freshResults(f.Signature.Results(), "unk_"+smt.Sanitize(f.Name()))
 }
 
+// foreignTrace returns the name of a ghost trace that x mentions and that the
+// callee neither re-exports (emits) nor is itself recorded under.
+func (e *Exec) foreignTrace(x SExpr, spec *FuncSpec) string {
+	if e.traceNames == nil {
+		e.traceNames = map[string]bool{}
+		for _, f := range e.DB.Funcs {
+			if f.Records != "" {
+				e.traceNames[f.Records] = true
+			}
+		}
+	}
+	own := map[string]bool{}
+	for _, em := range spec.Emits {
+		own[em.Name] = true
+	}
+	found := ""
+	var walk func(x SExpr)
+	walk = func(x SExpr) {
+		if found != "" || x == nil {
+			return
+		}
+		switch n := x.(type) {
+		case *SIndex:
+			if id, ok := n.X.(*SIdent); ok && e.traceNames[id.Name] && !own[id.Name] {
+				found = id.Name
+				return
+			}
+			walk(n.X)
+			walk(n.I)
+		case *SBin:
+			walk(n.L)
+			walk(n.R)
+		case *SUn:
+			walk(n.X)
+		case *SCall:
+			if m, ok := e.DB.Macros[n.Fun]; ok && m != nil {
+				walk(m.Body)
+			}
+			for _, a := range n.Args {
+				walk(a)
+			}
+		case *SSlice:
+			walk(n.X)
+			walk(n.Lo)
+			walk(n.Hi)
+		case *SField:
+			walk(n.X)
+		case *SQuant:
+			walk(n.Body)
+		}
+	}
+	walk(x)
+	return found
+}
+
 // inline symbolically executes the callee body in the caller's state.
 func (e *Exec) inline(st *State, f *ssa.Function, bindings, args []Value, pos token.Pos) Value {
 	cs := &State{guard: st.guard, facts: st.facts, env: map[ssa.Value]Value{}, mem: st.mem, recs: st.recs, ghost: st.ghost}
@@ -495,6 +550,14 @@ func (e *Exec) applyContract(st *State, spec *FuncSpec, sig *types.Signature, pa
 	e.curRecBase = recBase
 	defer func() { e.curRecBase = savedBase }()
 	for _, en := range spec.Ensures {
+		// a postcondition about calls the callee made (a ghost trace) says
+		// nothing to a caller that cannot see those calls: the callee must
+		// re-export them (`emits`) for the clause to be assumed here -
+		// otherwise "no such call happened" would be read into it
+		if t := e.foreignTrace(en.Expr, spec); t != "" && !spec.Extern && !spec.Method {
+			e.note("postcondition [%s] of %s not assumed at a call: it speaks about the trace %s, which %s does not export to its callers", clauseLabel(en), short, t, short)
+			continue
+		}
 		if e.DB.Dropped[key+"/post/"+clauseLabel(en)] {
 			e.note("postcondition [%s] of %s not assumed: it failed in %s itself, callers are re-verified without it", clauseLabel(en), short, short)
 			continue
